@@ -230,6 +230,10 @@ def run(tier):
         if not obs.get("prep", True) or not obs.get("hs_ok") or not obs.get("app"):
             # flavour not realisable in this installation (e.g. kex x version not negotiable): skip, but report
             rep.notes.setdefault("flavours_not_realised", []).append("%s hs=%s peer=%s" % (name, obs.get("hs"), obs.get("peer_hs")))
+            # every listed flavour is negotiable in this installation: its honest flow has to complete (a conforming
+            # message sequence is accepted)
+            rep.violation({"flavour": name, "role": role, "script": "none", "clause": "honest-flow-completes",
+                           "observed": "hs=%s peer=%s app=%s" % (obs.get("hs"), obs.get("peer_hs"), obs.get("app"))}, {"obs": {k: v for k, v in obs.items() if k != "pup_flights"}})
             continue
         fl = obs["pup_flights"]
         # compress flight ids to 1..n
